@@ -58,9 +58,14 @@ func genGate(r *Rng, prop string, k int) *RunSpec {
 		o.Social, o.Federating = false, true
 	}
 	o.OnFollow = r.Intn(3)
+	if r.Intn(5) == 0 {
+		// served over plain http (say, behind a TLS-terminating proxy) while the ids it mints are https
+		o.Scheme, o.MintScheme = "http", "https"
+	}
+	o.QueryActor = r.Intn(4) == 0
 	st := newStd(o)
 	// a tombstone and a value with hidden recipients for the handler
-	tomb := "https://" + hostA + "/n/tomb"
+	tomb := hostPrefix(st) + "/n/tomb"
 	st.W.Servers[0].Docs = append(st.W.Servers[0].Docs, DocSpec{tomb, mustJSON(J{"@context": asCtx, "type": "Tombstone", "id": tomb, "formerType": "Note", "deleted": "2020-01-01T00:00:00Z"})})
 	ex := gateExpect{Req: map[string]gateReq{}}
 	n := 1 + r.Intn(3)
@@ -71,6 +76,9 @@ func genGate(r *Rng, prop string, k int) *RunSpec {
 		isPost := strings.HasPrefix(kind, "post")
 		ge := gateReq{Blocked: "no"}
 		rq := ReqSpec{ID: id, Server: hostA, Kind: kind, Actor: Pick(r, []string{"alice", "carol"})}
+		if o.QueryActor && r.Bool() {
+			rq.Actor = "quinn"
+		}
 		// method
 		rightMethod := "GET"
 		if isPost {
@@ -114,7 +122,7 @@ func genGate(r *Rng, prop string, k int) *RunSpec {
 			gateBody(r, st, kind, &rq, &ge)
 		}
 		if kind == "handler" {
-			rq.Path = pathOf(Pick(r, []string{st.Note1, st.Note2, tomb, "https://" + hostA + "/n/none", st.Col1}))
+			rq.Path = pathOf(Pick(r, []string{st.Note1, st.Note2, tomb, hostPrefix(st) + "/n/none", st.Col1}))
 		}
 		// block outcome (inbox only): through the blocked list or a fault on the Blocked call
 		if kind == "postInbox" {
@@ -145,6 +153,8 @@ func genGate(r *Rng, prop string, k int) *RunSpec {
 	return sp
 }
 
+func hostPrefix(st *Std) string { return st.Note1[:len(st.Note1)-len("/n/1")] }
+
 func sortFaults(f []FaultSpec) {
 	for i := 1; i < len(f); i++ {
 		for j := i; j > 0 && f[j].Site < f[j-1].Site; j-- {
@@ -170,6 +180,7 @@ func gateBody(r *Rng, st *Std, kind string, rq *ReqSpec, ge *gateReq) {
 			st.act("Undo", J{"object": st.RLike}),
 			st.act("Block", J{"object": st.Alice.ID}),
 			st.act("Listen", J{"object": st.RNote}),
+			st.act("Create", J{"object": []string{"https://" + hostR + "/n/gone1", "https://" + hostR + "/n/gone2"}, "to": st.Alice.ID}), // by reference; the documents are unreachable
 		}
 	} else {
 		a := st.Alice.ID
@@ -438,10 +449,15 @@ func oracleGate(c *DriveCtx, res *Result) {
 			allow([]int{200}, true)
 		case "handler":
 			want := 200
-			d := res.Before[t.Srv]["https://"+t.Srv+t.Req.Path]
+			scheme := srv.Spec.Scheme
+			if scheme == "" {
+				scheme = "https"
+			}
+			docID := scheme + "://" + t.Srv + t.Req.Path
+			d := res.Before[t.Srv][docID]
 			if supplied, _ := t.Result.(string); supplied != "" {
 				d = supplied // the value the database handed to this very request (a concurrent client Delete may have replaced it)
-			} else if _, nowThere := res.After[t.Srv]["https://"+t.Srv+t.Req.Path]; d == "" && nowThere {
+			} else if _, nowThere := res.After[t.Srv][docID]; d == "" && nowThere {
 				continue // created by a concurrent request; whether this GET saw it is a matter of schedule
 			}
 			if d == "" {
